@@ -220,6 +220,35 @@ func runC18(c *Case) {
 			c.Violate("C18:encryptor:round-trip", fmt.Sprintf("cross decrypt failed: %v", err), nil)
 			return
 		}
+		// an empty passphrase is a passphrase: what it writes is encrypted and authenticated as well
+		for _, ep := range [][]byte{nil, {}} {
+			ee := kv.V1NodeEncryptor(ep)
+			em := append([]byte("plaintext-marker-"), r.Bytes(40)...)
+			ec, err := ee.Encrypt("p", em)
+			c.Count("empty_passphrase_encryptors", 1)
+			if err != nil {
+				c.Violate("C18:encryptor:empty-passphrase:encrypt-error", err.Error(), nil)
+				return
+			}
+			if bytes.Contains(ec, em[:17]) || bytes.Equal(ec, em) {
+				c.Violate("C18:encryptor:empty-passphrase:plaintext", "an encryptor built from an empty passphrase stores the plaintext", nil)
+				return
+			}
+			if pt, err := ee.Decrypt("p", ec); err != nil || !bytes.Equal(pt, em) {
+				c.Violate("C18:encryptor:empty-passphrase:round-trip", fmt.Sprintf("round trip under the empty passphrase failed: %v", err), nil)
+				return
+			}
+			bad := append([]byte{}, ec...)
+			bad[len(bad)-1] ^= 1
+			if _, err := ee.Decrypt("p", bad); err == nil {
+				c.Violate("C18:encryptor:empty-passphrase:tamper-accepted", "under the empty passphrase a modified box opens without error", nil)
+				return
+			}
+			if _, err := ref.Decrypt("p", ec); err == nil {
+				c.Violate("C18:encryptor:empty-passphrase:opens-under-another", "a box written under the empty passphrase opens under another passphrase", nil)
+				return
+			}
+		}
 		// passphrases that differ from the right one only slightly are different passphrases
 		for _, np := range c18NearMisses(pass) {
 			other := kv.V1NodeEncryptor(append([]byte{}, np...))
@@ -327,10 +356,38 @@ func c18EndToEnd(c *Case) {
 			return
 		}
 	}
-	if _, err := db.Commit(ctx); err != nil {
-		c.Violate("C18:e2e:commit", err.Error(), nil)
-		return
+	// now and then one node PUT of the commit fails once: the commit may fail and is then repeated;
+	// whatever the retry logic does, what ends up in the bucket is encrypted
+	putFault := !bulk && r.Intn(3) != 0
+	if putFault {
+		st.Client("e2e").AddFault(fs3.Fault{Op: fs3.OpPut, KeyContain: "/node/", Action: "error"})
+		c.Count("commits_with_a_failing_node_put", 1)
 	}
+	if _, err := db.Commit(ctx); err != nil {
+		st.Client("e2e").ClearFaults()
+		if !putFault || !fs3.IsInjected(err) {
+			c.Violate("C18:e2e:commit", err.Error(), nil)
+			return
+		}
+		// the same entries on a fresh handle
+		db.Cancel()
+		db, err = kv.Open(ctx, view, cfgFor(pass), kv.OpenOptions{}, time.Unix(1000, 0))
+		if err != nil {
+			c.Violate("C18:e2e:open", err.Error(), nil)
+			return
+		}
+		for k, v := range want {
+			if err := db.Set(ctx, time.Unix(2000+int64(idxOf[k]), 0), k, v); err != nil {
+				c.Violate("C18:e2e:set", err.Error(), nil)
+				return
+			}
+		}
+		if _, err := db.Commit(ctx); err != nil {
+			c.Violate("C18:e2e:commit", "after a failed node PUT the repeated commit failed: "+err.Error(), nil)
+			return
+		}
+	}
+	st.Client("e2e").ClearFaults()
 	snap := st.Snapshot()
 	nodes := 0
 	for k, b := range snap {
